@@ -212,6 +212,9 @@ impl Callbacks for Dump {
             rec.push_str(",\"blocks\":[");
             let mut writes = String::new();
             let mut first_w = true;
+            let mut aggs = String::new();
+            let mut lconsts = String::new();
+            let mut assigned: std::collections::HashMap<usize, (u32, String)> = std::collections::HashMap::new();
             for (bb, data) in body.basic_blocks.iter_enumerated() {
                 if bb.as_usize() > 0 {
                     rec.push(',');
@@ -319,6 +322,39 @@ impl Callbacks for Dump {
                                 let _ = write!(writes, "{{\"w\":\"mutborrow\",\"adt\":{},\"f\":{},\"l\":{},\"bb\":{},\"x\":{},\"sh\":{}}}", esc(&adt), esc(&f), sl.line, bb.as_usize(), sl.exp, shared);
                             }
                         }
+                        // locals assigned a constant or a field-less variant (to name call arguments), and ADT constructions
+                        if place.projection.is_empty() {
+                            let repr = match rv {
+                                Rvalue::Use(Operand::Constant(c), ..) => Some(with_no_trimmed_paths!(format!("{}", c.const_))),
+                                Rvalue::Aggregate(k, fs) if fs.is_empty() => match &**k {
+                                    mir::AggregateKind::Adt(adid, vidx, ..) => {
+                                        let ad = tcx.adt_def(*adid);
+                                        Some(format!("{}::{}", path_of(tcx, *adid), ad.variant(*vidx).name))
+                                    }
+                                    _ => None,
+                                },
+                                _ => None,
+                            };
+                            let e = assigned.entry(place.local.as_usize()).or_insert((0, String::new()));
+                            e.0 += 1;
+                            if let Some(r) = repr {
+                                e.1 = r.chars().take(120).collect();
+                            } else {
+                                e.1 = String::new();
+                            }
+                        }
+                        if let Rvalue::Aggregate(k, _) = rv {
+                            if let mir::AggregateKind::Adt(adid, vidx, ..) = &**k {
+                                let cn = tcx.crate_name(adid.krate).to_string();
+                                if cn != "core" && cn != "std" && cn != "alloc" {
+                                    let ad = tcx.adt_def(*adid);
+                                    if !aggs.is_empty() {
+                                        aggs.push(',');
+                                    }
+                                    let _ = write!(aggs, "{{\"adt\":{},\"v\":{},\"l\":{},\"bb\":{},\"x\":{}}}", esc(&path_of(tcx, *adid)), esc(&ad.variant(*vidx).name.to_string()), sl.line, bb.as_usize(), sl.exp);
+                                }
+                            }
+                        }
                         if let Rvalue::RawPtr(_, p2) = rv {
                             for (adt, f, shared) in place_fields(tcx, body, p2) {
                                 if !first_w {
@@ -331,7 +367,15 @@ impl Callbacks for Dump {
                     }
                 }
             }
-            let _ = write!(rec, "],\"writes\":[{}]}}", writes);
+            for (l, (n, r)) in assigned.iter() {
+                if *n == 1 && !r.is_empty() {
+                    if !lconsts.is_empty() {
+                        lconsts.push(',');
+                    }
+                    let _ = write!(lconsts, "\"{}\":{}", l, esc(r));
+                }
+            }
+            let _ = write!(rec, "],\"writes\":[{}],\"aggs\":[{}],\"lc\":{{{}}}}}", writes, aggs, lconsts);
             out.push_str(&rec);
             out.push('\n');
         }
